@@ -52,6 +52,10 @@ Lemma count_cons_same (x : N) (l : list N) : count x (x :: l) = count x l + 1.
 Proof. unfold count. simpl. rewrite N.eqb_refl. simpl. lia. Qed.
 
 (* ================================================================== D: DHCP *)
+Arguments release_rest : simpl never.
+Arguments pool_release : simpl never.
+Arguments pool_mark : simpl never.
+Arguments drop_lease : simpl never.
 
 Definition dsess_lease (mac : N) (l : lease) : dsess :=
   {| se_mac := mac; se_ip := l_ip l; se_cid := l_cid l; se_sid := l_sid l |}.
@@ -177,20 +181,23 @@ Lemma d_release_releases_all (c : dcfg) (s : dst) (mac : N) (l : lease) :
 Proof.
   intros HL W. unfold dwf in W.
   repeat (apply andb_prop in W; destruct W as [W ?]).
-  simpl. rewrite HL.
+  assert (PO : pool_own mac (l_ip l) (alloc s) = true) by (unfold pool_own; rewrite W, H4; reflexivity).
+  unfold dstep. rewrite HL.
   pose proof (release_rest_free c (drop_lease s mac l) mac l H2 H1 H) as R.
   destruct (release_rest c (drop_lease s mac l) mac l) as [s1 ev] eqn:RR. simpl in R.
   destruct R as (Rn & Rq & Rm & Rc & Ra & Ral & Rav & Run & Rv & _).
   simpl. apply dheld_nil. unfold dfree, dsess_lease, pool_release. simpl.
   rewrite Ral. simpl.
   destruct (drop_val (l_ip l) (alloc s)) as [a'|] eqn:D; unfold set_pool; simpl.
-  - unfold ahas. rewrite (drop_val_some mac (l_ip l) (alloc s) a' W D). simpl.
+  - assert (A : ahas mac a' = false) by (unfold ahas; now rewrite (drop_val_some mac (l_ip l) (alloc s) a' PO D)).
+    rewrite A. simpl.
     rewrite Rav. simpl. rewrite smem_app_last. simpl.
     rewrite Rn, Rq, Rm, Rc, Rv, H0, Ra. reflexivity.
-  - apply andb_prop in W. destruct W as [W1 W2].
+  - pose proof W as W1.
     pose proof (drop_val_none mac (l_ip l) (alloc s) W1 D) as NA.
-    unfold ahas in *. rewrite NA in *. simpl in *.
-    rewrite Rav, Run, H3. simpl.
+    assert (A : ahas mac (alloc s) = false) by (unfold ahas; now rewrite NA).
+    rewrite ?Ral, ?Rav, ?Run. rewrite A in *. simpl in *.
+    rewrite H3. simpl.
     rewrite Rn, Rq, Rm, Rc, Rv, H0, Ra. reflexivity.
 Qed.
 
@@ -201,15 +208,18 @@ Lemma d_decline_own_releases_all (c : dcfg) (s : dst) (mac : N) (l : lease) :
 Proof.
   intros HL NZ W. unfold dwf in W.
   repeat (apply andb_prop in W; destruct W as [W ?]).
-  simpl. rewrite HL.
+  assert (PO : pool_own mac (l_ip l) (alloc s) = true) by (unfold pool_own; rewrite W, H4; reflexivity).
+  unfold dstep. rewrite HL.
   apply N.eqb_neq in NZ. rewrite NZ.
   pose proof (release_rest_free c (pool_mark (drop_lease s mac l) (l_ip l)) mac l H2 H1 H) as R.
   destruct (release_rest c (pool_mark (drop_lease s mac l) (l_ip l)) mac l) as [s1 ev] eqn:RR. simpl in R.
   destruct R as (Rn & Rq & Rm & Rc & Ra & Ral & Rav & Run & Rv & _).
   simpl. apply dheld_nil. unfold dfree, dsess_lease. simpl.
   rewrite Ral, Rav, Run. unfold pool_mark, set_pool. simpl.
-  apply andb_prop in W. destruct W as [W1 W2].
-  unfold ahas. rewrite (filter_val_no_key mac (l_ip l) (alloc s) W1). simpl.
+  pose proof W as W1.
+  assert (A : ahas mac (filter (fun p => negb (snd p =? l_ip l)) (alloc s)) = false)
+    by (unfold ahas; now rewrite (filter_val_no_key mac (l_ip l) (alloc s) W1)).
+  rewrite A. simpl.
   rewrite smem_sadd_same, orb_true_r. simpl.
   rewrite Rn, Rq, Rm, Rc, Rv, H0, Ra. reflexivity.
 Qed.
@@ -221,6 +231,7 @@ Lemma d_expiry_releases_all (c : dcfg) (s : dst) (mac : N) (l : lease) :
 Proof.
   intros HL T W. unfold dwf in W.
   repeat (apply andb_prop in W; destruct W as [W ?]).
+  assert (PO : pool_own mac (l_ip l) (alloc s) = true) by (unfold pool_own; rewrite W, H4; reflexivity).
   unfold expire_one. rewrite HL.
   apply Z.ltb_lt in T. rewrite T.
   assert (Hn : (c_nat c || negb (smem (l_ip l) (nat (pool_release (drop_lease s mac l) (l_ip l))))) = true).
@@ -236,12 +247,14 @@ Proof.
   simpl. apply dheld_nil. unfold dfree, dsess_lease. simpl.
   rewrite Ral, Rav, Run, Rv. unfold pool_release. simpl.
   destruct (drop_val (l_ip l) (alloc s)) as [a'|] eqn:D; unfold set_pool; simpl.
-  - unfold ahas. rewrite (drop_val_some mac (l_ip l) (alloc s) a' W D). simpl.
+  - assert (A : ahas mac a' = false) by (unfold ahas; now rewrite (drop_val_some mac (l_ip l) (alloc s) a' PO D)).
+    rewrite A. simpl.
     rewrite smem_app_last. simpl.
     rewrite Rn, Rq, Rm, Rc, H0, Ra. reflexivity.
-  - apply andb_prop in W. destruct W as [W1 W2].
+  - pose proof W as W1.
     pose proof (drop_val_none mac (l_ip l) (alloc s) W1 D) as NA.
-    unfold ahas in *. rewrite NA in *. simpl in *.
+    assert (A : ahas mac (alloc s) = false) by (unfold ahas; now rewrite NA).
+    rewrite ?Ral, ?Rav, ?Run. rewrite A in *. simpl in *.
     rewrite H3. simpl.
     rewrite Rn, Rq, Rm, Rc, H0, Ra. reflexivity.
 Qed.
@@ -256,8 +269,7 @@ Proof.
   simpl. destruct (aget mac (leases s)) as [l|] eqn:HL; simpl; auto.
   destruct (release_rest c (drop_lease s mac l) mac l) as [s1 ev] eqn:RR. simpl.
   rewrite leases_pool_release.
-  assert (leases s1 = leases (drop_lease s mac l)) by (unfold release_rest in RR; inversion RR; reflexivity).
-  rewrite H. simpl. apply aget_adel_same.
+  unfold release_rest in RR. inversion RR. simpl. apply aget_adel_same.
 Qed.
 
 Lemma d_lease_gone_decline (c : dcfg) (s : dst) (mac ip : N) :
@@ -265,10 +277,8 @@ Lemma d_lease_gone_decline (c : dcfg) (s : dst) (mac ip : N) :
 Proof.
   simpl. destruct (aget mac (leases s)) as [l|] eqn:HL; simpl; auto.
   destruct (release_rest c (if ip =? 0 then drop_lease s mac l else pool_mark (drop_lease s mac l) ip) mac l) as [s1 ev] eqn:RR.
-  simpl.
-  assert (leases s1 = leases (drop_lease s mac l)).
-  { unfold release_rest in RR. inversion RR. destruct (ip =? 0); reflexivity. }
-  rewrite H. simpl. apply aget_adel_same.
+  simpl. unfold release_rest in RR. inversion RR. simpl.
+  destruct (ip =? 0); simpl; apply aget_adel_same.
 Qed.
 
 Lemma d_no_lease_noop (c : dcfg) (s : dst) (mac ip : N) :
@@ -341,4 +351,234 @@ Proof.
   unfold drun. generalize (eq_refl (cvlan (dinit c))). generalize (dinit c) at 1 3.
   induction ops as [|o tl IH]; intros s H; simpl; auto.
   apply IH. now rewrite cvlan_step.
+Qed.
+
+(* ---- witnesses: the guard is satisfiable on a reachable state; the unguarded clauses are refuted *)
+Definition cfgD : dcfg :=
+  {| c_lo := 0; c_hi := 15; c_avail0 := [2;3;4;5;6;7;8;9;10;11;12;13;14]; c_lease := 3600%Z; c_radius := true;
+     c_qos := true; c_nat := true; c_natcap := 4; c_cache := true |}.
+Definition stD : dst := drun cfgD [Discover 1 1 true; Request 1 2 1 true; Discover 2 0 false; Request 2 3 0 false].
+
+Lemma d_guard_satisfiable :
+  exists l, aget 1 (leases stD) = Some l /\ dwf cfgD stD 1 l = true /\ dheld stD (dsess_lease 1 l) <> [] /\
+            l_ip l = 2 /\ l_cid l = 1 /\ l_sid l = 1.
+Proof. eexists. repeat split; try (vm_compute; reflexivity). vm_compute. discriminate. Qed.
+
+Lemma d_decline_other_refuted :
+  exists c s mac l ip, aget mac (leases s) = Some l /\ dwf c s mac l = true /\
+    dheld (fst (fst (dstep c s (Decline mac ip)))) (dsess_lease mac l) <> [].
+Proof.
+  exists cfgD, stD, 1, {| l_ip := 2; l_cid := 1; l_sid := 1; l_ttl := 3600%Z |}, 6.
+  repeat split; try (vm_compute; reflexivity). vm_compute. discriminate.
+Qed.
+
+Lemma d_offered_only_refuted :
+  exists c s mac e, dsess_of s mac = Some e /\ aget mac (leases s) = None /\
+    dheld (fst (fst (dstep c s (Release mac)))) e <> [] /\
+    dheld (fst (fst (dstep c s (Decline mac (se_ip e))))) e <> [].
+Proof.
+  exists cfgD, (drun cfgD [Discover 1 0 false]), 1, {| se_mac := 1; se_ip := 2; se_cid := 0; se_sid := 0 |}.
+  repeat split; try (vm_compute; reflexivity); vm_compute; discriminate.
+Qed.
+
+(* ================================================================== P: PPPoE *)
+
+Definition p_ip (s : pst) (i : N) : N := match aget i (palloc s) with Some ip => ip | None => 0 end.
+
+Lemma pheld_ext (s1 s2 : pst) (i ip : N) :
+  palloc s1 = palloc s2 -> pavail s1 = pavail s2 -> pheld s1 i ip = pheld s2 i ip.
+Proof. unfold pheld. intros -> ->. reflexivity. Qed.
+
+Lemma p_release_free (s : pst) (i : N) : pheld (ppool_release s i) i (p_ip s i) = [].
+Proof.
+  unfold pheld, ppool_release, p_ip.
+  destruct (aget i (palloc s)) as [ip|] eqn:E; simpl.
+  - rewrite ahas_adel_same, smem_app_last. simpl. now rewrite andb_false_r.
+  - unfold ahas. now rewrite E.
+Qed.
+
+Lemma p_nothing_held (s : pst) (i : N) : ahas i (palloc s) = false -> pheld s i (p_ip s i) = [].
+Proof. unfold pheld, p_ip, ahas. destruct (aget i (palloc s)); [discriminate|]. reflexivity. Qed.
+
+Lemma premove_pool (s : pst) (id : N) : palloc (premove s id) = palloc s /\ pavail (premove s id) = pavail s.
+Proof. unfold premove. destruct (aget id (tbl s)); auto. Qed.
+
+(* the address part of a frame-driven ending: [seth], then the pool release, then RemoveSession *)
+Lemma p_end_by_frame (c : pcfg) (s s0 : pst) (id i : N) :
+  palloc s0 = palloc s -> pavail s0 = pavail s ->
+  (pc_pool c || negb (ahas i (palloc s))) = true ->
+  pheld (premove (if pc_pool c then ppool_release s0 i else s0) id) i (p_ip s i) = [].
+Proof.
+  intros A V G.
+  destruct (premove_pool (if pc_pool c then ppool_release s0 i else s0) id) as [P1 P2].
+  rewrite (pheld_ext _ (if pc_pool c then ppool_release s0 i else s0) i _ P1 P2).
+  assert (E : p_ip s i = p_ip s0 i) by (unfold p_ip; now rewrite A).
+  destruct (pc_pool c); simpl in G.
+  - rewrite E. apply p_release_free.
+  - apply negb_true_iff in G. rewrite (pheld_ext s0 s i _ A V). now apply p_nothing_held.
+Qed.
+
+Lemma p_padt_releases (c : pcfg) (s : pst) (id mac i : N) (x : psess) :
+  pfind s id mac = Some (i, x) -> (pc_pool c || negb (ahas i (palloc s))) = true ->
+  pheld (fst (fst (pstep c s (Padt id mac)))) i (p_ip s i) = [].
+Proof. intros F G. unfold pstep. rewrite F. simpl. now apply p_end_by_frame. Qed.
+
+Lemma p_lcpterm_releases (c : pcfg) (s : pst) (id mac i : N) (x : psess) :
+  pfind s id mac = Some (i, x) -> (pc_pool c || negb (ahas i (palloc s))) = true ->
+  pheld (fst (fst (pstep c s (LcpTerm id mac)))) i (p_ip s i) = [].
+Proof. intros F G. unfold pstep. rewrite F. simpl. now apply p_end_by_frame. Qed.
+
+Lemma p_authfail_releases (c : pcfg) (s : pst) (id mac i : N) (x : psess) :
+  pfind s id mac = Some (i, x) -> (pc_pool c || negb (ahas i (palloc s))) = true ->
+  pheld (fst (fst (pstep c s (Pap id mac false)))) i (p_ip s i) = [].
+Proof.
+  intros F G. unfold pstep. rewrite F. simpl.
+  destruct (pc_pool c) eqn:P; simpl in *.
+  - rewrite (pheld_ext _ (ppool_release s i) i _); [apply p_release_free| |]; unfold ppool_release; simpl;
+      destruct (aget i (palloc s)); reflexivity.
+  - apply negb_true_iff in G. rewrite (pheld_ext _ s i _); [now apply p_nothing_held|reflexivity|reflexivity].
+Qed.
+
+(* SessionTeardown.cleanup (HandleClientPADT, TerminateSession, TerminateAll reach it) *)
+Lemma p_cleanup_releases (c : pcfg) (s : pst) (i : N) (x : psess) :
+  aget i (heap s) = Some x -> ps_torn x = false ->
+  (negb (ahas i (palloc s)) || (pc_pool c && negb (ps_ip x =? 0))) = true ->
+  let r := pcleanup c s i in
+  pheld (fst (fst r)) i (p_ip s i) = [] /\ In (3, ps_id x) (snd (fst r)) /\
+  (pc_radius c && ps_auth x = true -> In (2, i) (snd (fst r))).
+Proof.
+  intros H T G. unfold pcleanup. rewrite H, T. simpl. split; [|split].
+  - match goal with |- pheld (premove ?S _) _ _ = _ => destruct (premove_pool S (ps_id x)) as [P1 P2];
+      rewrite (pheld_ext _ S i _ P1 P2) end.
+    unfold pset. simpl.
+    destruct (pc_pool c && negb (ps_ip x =? 0)) eqn:B.
+    + rewrite (pheld_ext _ (ppool_release s i) i _); [apply p_release_free|reflexivity|reflexivity].
+    + rewrite orb_false_r in G. apply negb_true_iff in G.
+      rewrite (pheld_ext _ s i _); [now apply p_nothing_held|reflexivity|reflexivity].
+  - left. reflexivity.
+  - intro R. rewrite R. right. left. reflexivity.
+Qed.
+
+(* cleanup of one session object twice: the second call does nothing (no second Accounting-Stop) *)
+Lemma heap_premove (s : pst) (id : N) : heap (premove s id) = heap s.
+Proof. unfold premove. destruct (aget id (tbl s)); reflexivity. Qed.
+
+Lemma p_cleanup_twice (c : pcfg) (s : pst) (i : N) :
+  let s1 := fst (fst (pcleanup c s i)) in pcleanup c s1 i = (s1, [], []).
+Proof.
+  destruct (aget i (heap s)) as [x|] eqn:H.
+  - destruct (ps_torn x) eqn:T.
+    + assert (E : pcleanup c s i = (s, [], [])) by (unfold pcleanup; now rewrite H, T).
+      rewrite E. simpl. exact E.
+    + assert (E : exists x', aget i (heap (fst (fst (pcleanup c s i)))) = Some x' /\ ps_torn x' = true).
+      { unfold pcleanup. rewrite H, T. simpl. rewrite heap_premove. unfold pset. simpl.
+        rewrite aget_aput_same. eexists. split; reflexivity. }
+      destruct E as [x' [E1 E2]]. simpl.
+      set (s1 := fst (fst (pcleanup c s i))) in *.
+      unfold pcleanup. now rewrite E1, E2.
+  - assert (E : pcleanup c s i = (s, [], [])) by (unfold pcleanup; now rewrite H).
+    rewrite E. simpl. exact E.
+Qed.
+
+(* a frame for a session that is gone ends nothing *)
+Lemma p_frame_after_end_noop (c : pcfg) (s : pst) (id mac : N) :
+  pfind s id mac = None ->
+  pstep c s (Padt id mac) = (s, [], []) /\ pstep c s (LcpTerm id mac) = (s, [], []) /\
+  pstep c s (Pap id mac false) = (s, [], []).
+Proof. intro F. unfold pstep. rewrite F. auto. Qed.
+
+Definition cfgP : pcfg := {| pc_avail0 := [2;3;4;5;6;7]; pc_pool := true; pc_radius := true; pc_timeout := 300%Z |}.
+Definition stP : pst :=
+  fold_left (fun s o => fst (fst (pstep cfgP s o))) [Padr 1; LcpAck 1 1; Pap 1 1 true; IpcpAck 1 1; PAge 900%Z] (pinit cfgP).
+
+Lemma p_guard_satisfiable :
+  exists x, pfind stP 1 1 = Some (1, x) /\ aget 1 (heap stP) = Some x /\ ps_torn x = false /\ p_ip stP 1 = 2 /\
+            pheld stP 1 2 <> [].
+Proof. eexists. repeat split; try (vm_compute; reflexivity). vm_compute. discriminate. Qed.
+
+Lemma p_idle_cleanup_refuted :
+  exists c s i, ahas i (palloc s) = true /\ aget 1 (tbl (fst (fst (pstep c s IdleTick)))) = None /\
+                pheld (fst (fst (pstep c s IdleTick))) i (p_ip s i) <> [].
+Proof. exists cfgP, stP, 1. repeat split; try (vm_compute; reflexivity). vm_compute. discriminate. Qed.
+
+(* idle cleanup of a session that holds no address is complete *)
+Lemma fold_inv {A B} (f : A -> B -> A) (P : A -> Prop) :
+  (forall a b, P a -> P (f a b)) -> forall l a, P a -> P (fold_left f l a).
+Proof. intros H l. induction l; simpl; auto. Qed.
+
+Lemma p_idle_partial (c : pcfg) (s : pst) (i : N) :
+  ahas i (palloc s) = false -> pheld (fst (fst (pstep c s IdleTick))) i (p_ip s i) = [].
+Proof.
+  intro A.
+  assert (K : palloc (fst (fst (pstep c s IdleTick))) = palloc s /\ pavail (fst (fst (pstep c s IdleTick))) = pavail s).
+  { unfold pstep.
+    apply (fold_inv _ (fun acc : pst * list (N * N) * list N =>
+                         palloc (fst (fst acc)) = palloc s /\ pavail (fst (fst acc)) = pavail s)); [|auto].
+    intros [[s0 ev] mk] p [P1 P2]. simpl in *.
+    destruct (aget (snd p) (heap s0)) as [x|]; simpl; auto.
+    destruct (pc_timeout c <? ps_idle x)%Z; simpl; auto.
+    destruct (premove_pool s0 (fst p)) as [Q1 Q2]. split; congruence. }
+  destruct K as [P1 P2]. rewrite (pheld_ext _ s i _ P1 P2). now apply p_nothing_held.
+Qed.
+
+(* ================================================================== S: subscriber.Manager *)
+
+Lemma s_terminate_releases (c : scfg) (s : sst) (n : N) (x : ssess) :
+  aget n (ssn s) = Some x -> ((ss_ip x =? 0) || smem (ss_ip x) (salloc s)) = true ->
+  let r := sstep c s (STerminate n) in
+  sheld (fst (fst r)) (ss_mac x) (ss_ip x) = [] /\
+  snd (fst r) = (0, (if ss_ip x =? 0 then [] else [(5, ss_ip x)]) ++ [(6, n)]) /\
+  aget n (ssn (fst (fst r))) = None.
+Proof.
+  intros H G. unfold sstep, sterm. rewrite H. simpl. split; [|split].
+  - unfold sheld. simpl. rewrite ahas_adel_same.
+    destruct (ss_ip x =? 0) eqn:Z; simpl; auto.
+    simpl in G. rewrite G. simpl. rewrite smem_sdel_same, smem_app_last, ahas_adel_same. reflexivity.
+  - destruct (ss_ip x =? 0); reflexivity.
+  - apply aget_adel_same.
+Qed.
+
+(* terminating twice: the second call reports "not found" and changes nothing, emits nothing *)
+Lemma s_terminate_twice (c : scfg) (s : sst) (n : N) :
+  let s1 := fst (fst (sstep c s (STerminate n))) in sstep c s1 (STerminate n) = (s1, (1, []), []).
+Proof.
+  destruct (aget n (ssn s)) as [x|] eqn:H.
+  - assert (G : aget n (ssn (fst (fst (sstep c s (STerminate n))))) = None).
+    { unfold sstep, sterm. rewrite H. simpl. apply aget_adel_same. }
+    cbv zeta. remember (fst (fst (sstep c s (STerminate n)))) as s1 eqn:Q. clear Q.
+    unfold sstep, sterm. now rewrite G.
+  - assert (E : sstep c s (STerminate n) = (s, (1, []), [])) by (unfold sstep, sterm; now rewrite H).
+    rewrite E. simpl. exact E.
+Qed.
+
+Definition cfgS : scfg := {| sc_avail0 := [2;3;4;5]; sc_stimeout := 86400%Z; sc_itimeout := 1800%Z |}.
+Definition stS : sst :=
+  fold_left (fun s o => fst (fst (sstep cfgS s o))) [SCreate 1; SAuth 1 true; SAssign 1; SActivate 1] (sinit cfgS).
+
+Lemma s_guard_satisfiable :
+  exists x, aget 1 (ssn stS) = Some x /\ ((ss_ip x =? 0) || smem (ss_ip x) (salloc stS)) = true /\
+            sheld stS (ss_mac x) (ss_ip x) <> [].
+Proof. eexists. repeat split; try (vm_compute; reflexivity). vm_compute. discriminate. Qed.
+
+Lemma s_stop_refuted :
+  exists c s n x, aget n (ssn s) = Some x /\
+    fst (sstep c s SStop) = (s, (0, [])) /\ sheld (fst (fst (sstep c s SStop))) (ss_mac x) (ss_ip x) <> [].
+Proof.
+  exists cfgS, stS, 1, {| ss_mac := 1; ss_state := 4; ss_ip := 2; ss_age := 0; ss_idle := 0 |}.
+  repeat split; try (vm_compute; reflexivity). vm_compute. discriminate.
+Qed.
+
+(* two concurrent terminations after commit fe50cc3: one caller passes (the oracle r is 1) and the
+   race is the sequential termination; with r > 1 (the code before the fix) the address is released and
+   the terminate event emitted r times *)
+Lemma s_race_events (c : scfg) (s : sst) (n r : N) (x : ssess) :
+  aget n (ssn s) = Some x -> ss_ip x <> 0 ->
+  count n (map snd (filter (fun e => fst e =? 6) (snd (snd (fst (sstep c s (SRace n r))))))) = 1 + (r - 1).
+Proof.
+  intros H NZ. remember (1 + (r - 1)) as rhs eqn:Q. unfold sstep, sterm. rewrite H. simpl.
+  apply N.eqb_neq in NZ. rewrite NZ. simpl.
+  assert (K : forall k, length (filter (N.eqb n) (map snd (filter (fun e => fst e =? 6)
+                 (concat (repeat [(5, ss_ip x); (6, n)] k))))) = k).
+  { induction k; simpl; auto. rewrite N.eqb_refl. simpl. now f_equal. }
+  rewrite count_cons_same. unfold count. rewrite K. subst rhs. lia.
 Qed.
